@@ -337,4 +337,166 @@ Proof.
         -- intros [H1 H2]. apply Hnx. split; [eapply has_layer_val; exact H1|]. rewrite !app_length in *. exact H2.
 Qed.
 
+(** * the shrink loop of Delete *)
+Record shrinking (m : mast) (l : seg) : Prop := {
+  s_root : (l = [] /\ m_root _ _ m = LNil) \/ (l <> [] /\ exists n, m_root _ _ m = LPtr n /\ erase_n n = bnode (m_height _ _ m) l);
+  s_ne : 0 < m_height _ _ m -> l <> [];
+  s_size : m_size _ _ m = N.of_nat (length l);
+  s_bf : (2 <= m_bf _ _ m)%N;
+  s_ga : m_grow_after _ _ m = pow_N (m_bf _ _ m) (S (m_height _ _ m));
+  s_sb : m_shrink_below _ _ m = pow_N (m_bf _ _ m) (m_height _ _ m);
+  s_next : ~ (has_layer l (S (m_height _ _ m)) /\ big (m_bf _ _ m) (S (m_height _ _ m)) (length l))
+}.
+
+Lemma no_keys_spec (m : mast) l :
+  shrinking m l -> (root_has_no_keys _ _ m = true <-> ~ has_layer l (m_height _ _ m)).
+Proof.
+  intros S. unfold root_has_no_keys. destruct (s_root _ _ S) as [[-> Hr]|[Hne (n & Hr & He)]]; rewrite Hr.
+  - split; [intros _ H; inversion H|reflexivity].
+  - destruct (node_inv K V layer _ _ _ He) as [_ Hes].
+    rewrite (has_layer_pivots (m_height _ _ m) l (m_height _ _ m)) by lia.
+    destruct (n_es _ _ n) as [|e es] eqn:En.
+    + destruct (snd (segs (m_height _ _ m) l)); [|discriminate]. split; [intros _ H; inversion H|reflexivity].
+    + destruct (snd (segs (m_height _ _ m) l)) as [|p ps] eqn:Ep; [discriminate|]. split; [discriminate|].
+      intros H. exfalso. apply H. apply Exists_cons_hd.
+      assert (Hin : In p (snd (segs (m_height _ _ m) l))) by (rewrite Ep; left; reflexivity).
+      apply (pivot_in _ _ _ Hin).
+Qed.
+
+Lemma shrink_spec (m : mast) l h' :
+  shrinking m l -> m_height _ _ m = S h' ->
+  oks (shrink _ _ m)
+      (fun m' => exists n', erase_n n' = bnode h' l /\
+         m' = Mast (LPtr n') h' (m_size _ _ m) (m_bf _ _ m) (pow_N (m_bf _ _ m) (S h')) (pow_N (m_bf _ _ m) h') (m_emptied _ _ m)).
+Proof.
+  intros S Hh. unfold shrink. rewrite Hh.
+  destruct (s_root _ _ S) as [[Hl _]|[Hne (n & Hr & He)]]; [exfalso; apply (s_ne _ _ S); [lia|exact Hl]|].
+  rewrite Hr. cbn [load]. apply (oks_bind _ _ (fun c => c = n)); [apply oks_ret; reflexivity|]. intros c ->.
+  rewrite Hh in He.
+  apply (oks_bind _ _ _ _ (shrink_node_spec K V layer h' n l He)). intros n' Hn'.
+  pose proof (s_bf _ _ S) as Hbf.
+  assert (Hsb : (1 <? m_shrink_below _ _ m)%N = true).
+  { apply N.ltb_lt. rewrite (s_sb _ _ S), Hh. cbn [pow_N]. pose proof (pow_N_pos (m_bf _ _ m) h' ltac:(lia)). nia. }
+  rewrite Hsb. apply oks_ret. exists n'. split; [exact Hn'|].
+  rewrite (s_sb _ _ S), (s_ga _ _ S), Hh, !pow_N_div by lia.
+  unfold link_of. destruct (is_empty _ _ n') eqn:E; [apply (is_empty_bnode _ _ _ Hn') in E; contradiction|reflexivity].
+Qed.
+
+Lemma shrink_loop_spec : forall fuel (m : mast) l,
+  shrinking m l -> m_height _ _ m <= fuel ->
+  oks (shrink_loop _ _ (S fuel) m) (fun m' => shrinking m' l /\ hok (m_bf _ _ m') l (m_height _ _ m')).
+Proof.
+  induction fuel as [|f IH]; intros m l S Hf.
+  - cbn [shrink_loop]. replace (Nat.ltb 0 (m_height _ _ m)) with false by (symmetry; apply Nat.ltb_ge; lia).
+    cbn [andb]. apply oks_ret. split; [exact S|left; lia].
+  - cbn [shrink_loop].
+    destruct (Nat.ltb 0 (m_height _ _ m)) eqn:Eh; cbn [andb]; [|apply oks_ret; split; [exact S|left; apply Nat.ltb_ge in Eh; lia]].
+    apply Nat.ltb_lt in Eh.
+    destruct ((m_size _ _ m <=? m_shrink_below _ _ m)%N || root_has_no_keys _ _ m) eqn:Ec.
+    + destruct (m_height _ _ m) as [|h'] eqn:Ehh; [lia|].
+      apply (oks_bind _ _ _ _ (shrink_spec m l h' S Ehh)). intros m' (n' & Hn' & ->).
+      apply IH; [|cbn [m_height]; lia].
+      assert (Hne : l <> []) by (apply (s_ne _ _ S); lia).
+      constructor; cbn [m_root m_height m_size m_bf m_grow_after m_shrink_below].
+      * right. split; [exact Hne|]. exists n'. split; [reflexivity|exact Hn'].
+      * intros _. exact Hne.
+      * exact (s_size _ _ S).
+      * exact (s_bf _ _ S).
+      * reflexivity.
+      * reflexivity.
+      * (* we shrank because the rule failed at h'+1 *)
+        intros [Hl Hb]. apply orb_true_iff in Ec. destruct Ec as [Ec|Ec].
+        -- apply N.leb_le in Ec. rewrite (s_size _ _ S), (s_sb _ _ S), Ehh in Ec. unfold big in Hb. lia.
+        -- apply (no_keys_spec m l S) in Ec. rewrite Ehh in Ec. contradiction.
+    + apply oks_ret. split; [exact S|]. right. apply orb_false_iff in Ec. destruct Ec as [Ec1 Ec2]. split.
+      * destruct (root_has_no_keys _ _ m) eqn:E; [discriminate|].
+        destruct (Exists_dec (fun x : kv => m_height _ _ m <= layer (fst x)) l (fun x => le_dec _ _)) as [Hd|Hd]; [exact Hd|].
+        apply (no_keys_spec m l S) in Hd. congruence.
+      * apply N.leb_gt in Ec1. rewrite (s_size _ _ S), (s_sb _ _ S) in Ec1. exact Ec1.
+Qed.
+
+(** * Delete *)
+Theorem delete_ok m l k v : canon m l -> lookup k l = Some v ->
+  oks (delete _ _ cmp veq layer m k v) (fun m' => canon m' (remove k l)).
+Proof.
+  intros C Hlk. unfold delete.
+  pose proof (cn_bf _ _ C) as Hbf.
+  destruct (sorted_cut K V cmp cmp_eq cmp_antisym cmp_trans k l (cn_sorted _ _ C)) as [a b El Ha Hb|a b v0 El Ha Hb]; subst l.
+  { rewrite lookup_absent in Hlk by assumption. discriminate. }
+  rewrite lookup_present in Hlk by assumption. inversion Hlk; subst v0. clear Hlk.
+  rewrite remove_present by assumption.
+  destruct (cn_root _ _ C) as (n & Hn & He).
+  assert (Hrn : m_root _ _ m <> LNil).
+  { intros E. apply (root_nil_list _ _ C) in E. exact (app_cons_not_nil _ _ _ E). }
+  assert (Hbody : oks (tick ELayer >>
+      (let* n0 := load _ _ (m_root _ _ m) in
+       let* n' := del _ _ cmp veq (S (m_height _ _ m)) (m_height _ _ m) (Nat.min (layer k) (m_height _ _ m)) k v n0 in
+       tick ECommit >>
+       (let m1 := root_of_node _ _ m n' in shrink_loop _ _ max_layer_fuel (set_size _ _ m1 (m_size _ _ m1 - 1)))))
+      (fun m' => canon m' (a ++ b))).
+  { apply oks_tick. apply (oks_bind _ _ _ _ (load_root _ _ Hn Hrn)). intros n0 ->.
+    eapply oks_bind.
+    { eapply (del_present K V cmp veq layer) with (a := a) (b := b); try eassumption; try reflexivity; try exact Ha; try exact Hb; try lia. }
+    intros n' Hn'. cbn beta in Hn'. apply oks_tick. cbn zeta.
+    set (m1 := set_size _ _ (root_of_node _ _ m n') (m_size _ _ (root_of_node _ _ m n') - 1)).
+    assert (Hh1 : m_height _ _ m1 = m_height _ _ m) by (unfold m1, root_of_node; destruct (is_empty _ _ n'); reflexivity).
+    assert (Hbf1 : m_bf _ _ m1 = m_bf _ _ m) by (unfold m1, root_of_node; destruct (is_empty _ _ n'); reflexivity).
+    assert (S1 : shrinking m1 (a ++ b)).
+    { destruct (cn_h _ _ C) as [Hok Hnx].
+      constructor.
+      - unfold m1, root_of_node. destruct (is_empty _ _ n') eqn:E.
+        + left. apply (is_empty_bnode _ _ _ Hn') in E. split; [exact E|reflexivity].
+        + right. split.
+          * intros E'. apply (is_empty_bnode _ _ _ Hn') in E'. congruence.
+          * exists n'. split; [reflexivity|exact Hn'].
+      - rewrite Hh1. intros Hpos. destruct Hok as [Hz|[_ Hbig]]; [lia|].
+        unfold big in Hbig. pose proof (pow_N_pos (m_bf _ _ m) (m_height _ _ m) ltac:(lia)).
+        rewrite app_length in Hbig. cbn [length] in Hbig. intros E. apply app_eq_nil in E. destruct E; subst. cbn in Hbig. lia.
+      - unfold m1, root_of_node. destruct (is_empty _ _ n'); cbn [set_size set_root m_size];
+          rewrite (cn_size _ _ C), !app_length; cbn [length]; lia.
+      - rewrite Hbf1. exact Hbf.
+      - unfold m1, root_of_node. destruct (is_empty _ _ n'); cbn [set_size set_root m_grow_after m_height m_bf]; exact (cn_ga _ _ C).
+      - unfold m1, root_of_node. destruct (is_empty _ _ n'); cbn [set_size set_root m_shrink_below m_height m_bf]; exact (cn_sb _ _ C).
+      - rewrite Hh1, Hbf1. intros [H1 H2]. apply Hnx. split; [apply has_layer_del; exact H1|].
+        eapply big_mono; [|exact H2]. rewrite !app_length. cbn [length]. lia. }
+    eapply oks_weaken.
+    { apply (shrink_loop_spec (pred max_layer_fuel) m1 (a ++ b) S1). rewrite Hh1.
+      destruct (cn_h _ _ C) as [Hok _]. pose proof (hok_height_bound _ _ _ Hok). unfold max_layer_fuel in *. cbn. lia. }
+    intros m' [S' Hok']. constructor.
+    - destruct (s_root _ _ S') as [[El Hr]|[Hne (n2 & Hr & He2)]]; rewrite Hr.
+      + exists (fresh_node K V). split; [reflexivity|]. rewrite El. apply erase_fresh.
+      + exists n2. split; [reflexivity|exact He2].
+    - destruct (ssorted_app_inv K V cmp _ _ (cn_sorted _ _ C)) as [Sa Sb]. inversion Sb; subst.
+      eapply (ssorted_join K V cmp); eassumption.
+    - exact (s_size _ _ S').
+    - exact (s_bf _ _ S').
+    - exact (s_ga _ _ S').
+    - exact (s_sb _ _ S').
+    - split; [exact Hok'|exact (s_next _ _ S')]. }
+  destruct (m_root _ _ m) as [|c|h c|h] eqn:Er; [contradiction|exact Hbody|exact Hbody|discriminate].
+Qed.
+
+Lemma del_fails h n l k v :
+  erase_n n = bnode h l -> sorted l -> lookup k l <> Some v ->
+  fails (del _ _ cmp veq (S h) h (Nat.min (layer k) h) k v n).
+Proof.
+  intros He Hs Hlk.
+  destruct (sorted_cut K V cmp cmp_eq cmp_antisym cmp_trans k l Hs) as [a b El Ha Hb|a b v0 El Ha Hb]; subst l.
+  - eapply (del_absent K V cmp veq layer) with (a := a) (b := b); try eassumption; try reflexivity; try exact Ha; try exact Hb; try lia.
+  - rewrite lookup_present in Hlk by assumption.
+    eapply (del_wrong_value K V cmp veq layer) with (a := a) (b := b) (v0 := v0); try eassumption; try reflexivity; try exact Ha; try exact Hb; try lia.
+    congruence.
+Qed.
+
+Theorem delete_fail m l k v : canon m l -> lookup k l <> Some v -> fails (delete _ _ cmp veq layer m k v).
+Proof.
+  intros C Hlk. unfold delete.
+  destruct (cn_root _ _ C) as (n & Hn & He).
+  destruct (m_root _ _ m) as [|c|h c|h] eqn:Er; [apply fails_fail| | |discriminate].
+  - apply fails_tick. apply (fails_bind_r _ _ _ (load_root _ _ Hn ltac:(discriminate))). intros n0 ->. apply fails_bind_l.
+    apply (del_fails _ _ l); [exact He|exact (cn_sorted _ _ C)|exact Hlk].
+  - apply fails_tick. apply (fails_bind_r _ _ _ (load_root _ _ Hn ltac:(discriminate))). intros n0 ->. apply fails_bind_l.
+    apply (del_fails _ _ l); [exact He|exact (cn_sorted _ _ C)|exact Hlk].
+Qed.
+
 End INV.
